@@ -147,11 +147,12 @@ def run_case(ctx, desc):
     nontrivial = len(opax) > 1 or any(has_lead(desc["pos"][a], to_eff[a]) for a in opax)
     ckey = ("model", shifts, weighted, len(desc["extra"]), "to" in call, dt)
     ctx.judged(ckey, nontrivial)
-    # cumsum takes `axis: Union[str, Iterable[str]]`: a list, a tuple or a one-shot iterator name the same axes
+    # several axes are documented as "list or tuple": both spellings name the same axes (a one-shot iterator is not drawn:
+    # the documentation does not promise it, and diff/interp on the unchanged tree do not handle one either - DESIGN L19)
     axis_arg = call["axis"]
     if isinstance(axis_arg, list):
         how = desc["data"]["seed"] % 4
-        axis_arg = tuple(axis_arg) if how == 1 else iter(list(axis_arg)) if how == 2 else axis_arg
+        axis_arg = tuple(axis_arg) if how in (1, 2) else axis_arg
     try:
         r = g.cumsum(da, axis_arg, **kw)
     except Exception as e:
